@@ -132,4 +132,182 @@ def sent : List Ev → List Nat
   | .send _ c :: es => c :: sent es
   | _ :: es => sent es
 
+/-! ### (c) processes sharing the lock file -/
+
+inductive PStep where
+  | lock      -- `fcntl.lockf(fd, LOCK_NB | LOCK_EX, 1, no)`; on OSError `await sleep(0)` and again
+  | pread     -- `self.counter, = os.pread(fd, 1, no)`
+  | send      -- `next_counter()` in `mbx_send`
+  | recv
+  | pwrite    -- `os.pwrite(fd, bytes((self.counter,)), no)`
+  | unlock    -- `fcntl.lockf(fd, LOCK_UN, 1, no)`; `self.counter = None`
+deriving Repr, DecidableEq
+
+def exchangesX : Nat → List PStep
+  | 0 => []
+  | n + 1 => .send :: .recv :: exchangesX n
+
+/-- `async with ParallelMailboxLock:` around `n` exchanges -/
+def criticalX (n : Nat) : List PStep := .lock :: .pread :: (exchangesX n ++ [.pwrite, .unlock])
+
+def progX : List Nat → List PStep
+  | [] => []
+  | n :: ns => criticalX n ++ progX ns
+
+/-- where a process is in `LockFile.__init__` -/
+inductive InitSt where
+  | fresh      -- before `os.open(O_CREAT | O_EXCL)`
+  | created    -- it created the file, `os.write(fd, bytes(maximum - minimum))` still to come
+  | opening    -- FileExistsError, `os.open(O_RDWR)` still to come
+  | ready
+deriving Repr, DecidableEq
+
+structure Proc where
+  init : InitSt
+  ctr : Option Nat            -- `ParallelMailboxLock.counter` of the lock object the process's tasks share
+  busy : Option Nat           -- the task that is between two file operations without an `await`
+  progs : Nat → List PStep    -- what each task still has to do
+
+structure File where
+  present : Bool
+  data : List Nat
+  owner : Option Nat          -- the process holding the record lock on byte `off`
+
+structure XSt where
+  size : Nat                  -- maximum - minimum
+  off : Nat                   -- no - minimum
+  file : File
+  procs : Nat → Proc
+
+inductive XEv where
+  | creat (p : Nat) (ok : Bool)
+  | opened (p : Nat)
+  | winit (p : Nat)
+  | lockOk (p t : Nat)
+  | lockBusy (p t : Nat)
+  | pread (p t v : Nat)
+  | preadEmpty (p t : Nat)       -- `self.counter, = b""`: ValueError out of `__aenter__`, the lock stays
+  | send (p t c : Nat)
+  | sendNone (p t : Nat)         -- `None % 7`: TypeError, and `__aexit__` raises TypeError as well
+  | recv (p t : Nat)
+  | pwrite (p t c : Nat)
+  | pwriteNone (p t : Nat)       -- `bytes((None,))`: TypeError out of `__aexit__`, the lock stays
+  | unlock (p t : Nat)
+deriving Repr, DecidableEq
+
+/-- `os.write` of `size` zero bytes through a descriptor at position 0 -/
+def writeInit (data : List Nat) (size : Nat) : List Nat := List.replicate size 0 ++ data.drop size
+
+/-- `os.pwrite` of one byte (a hole before it reads as zeros) -/
+def putByte (data : List Nat) (off v : Nat) : List Nat :=
+  if off < data.length then data.set off v else data ++ List.replicate (off - data.length) 0 ++ [v]
+
+def setProc (f : Nat → Proc) (p : Nat) (P : Proc) : Nat → Proc := fun q => if q = p then P else f q
+
+def contProg (P : Proc) (t : Nat) (r : List PStep) : Nat → List PStep := fun u => if u = t then r else P.progs u
+
+def initX (size off : Nat) (file : Option (List Nat)) (tasks : List (List (List Nat))) : XSt :=
+  { size := size, off := off,
+    file := match file with
+      | none => { present := false, data := [], owner := none }
+      | some d => { present := true, data := d, owner := none },
+    procs := fun p => { init := .fresh, ctr := none, busy := none,
+                        progs := fun t => progX ((tasks.getD p []).getD t []) } }
+
+/-- process `p` runs; if it is free to choose, it continues task `t` -/
+def stepX (s : XSt) (pt : Nat × Nat) : XSt × List XEv :=
+  let p := pt.1
+  let t := pt.2
+  let P := s.procs p
+  match P.init with
+  | .fresh =>
+    if s.file.present then ({ s with procs := setProc s.procs p { P with init := .opening } }, [.creat p false])
+    else ({ s with file := { s.file with present := true, data := [] },
+                   procs := setProc s.procs p { P with init := .created } }, [.creat p true])
+  | .created =>
+    ({ s with file := { s.file with data := writeInit s.file.data s.size },
+              procs := setProc s.procs p { P with init := .ready } }, [.winit p])
+  | .opening => ({ s with procs := setProc s.procs p { P with init := .ready } }, [.opened p])
+  | .ready =>
+    if P.busy.isSome && P.busy != some t then (s, []) else
+    match P.progs t with
+    | [] => (s, [])
+    | .lock :: r =>
+      if s.file.owner.isSome && s.file.owner != some p then (s, [.lockBusy p t])
+      else ({ s with file := { s.file with owner := some p },
+                     procs := setProc s.procs p { P with busy := some t, progs := contProg P t r } }, [.lockOk p t])
+    | .pread :: r =>
+      match s.file.data[s.off]? with
+      | none => ({ s with procs := setProc s.procs p { P with busy := none, progs := contProg P t [] } },
+                 [.preadEmpty p t])
+      | some v => ({ s with procs := setProc s.procs p { P with ctr := some v, busy := none, progs := contProg P t r } },
+                   [.pread p t v])
+    | .send :: r =>
+      match P.ctr with
+      | none => ({ s with procs := setProc s.procs p { P with progs := contProg P t [] } }, [.sendNone p t])
+      | some c => ({ s with procs := setProc s.procs p { P with ctr := some (nextCounter c), progs := contProg P t r } },
+                   [.send p t c])
+    | .recv :: r => ({ s with procs := setProc s.procs p { P with progs := contProg P t r } }, [.recv p t])
+    | .pwrite :: r =>
+      match P.ctr with
+      | none => ({ s with procs := setProc s.procs p { P with progs := contProg P t [] } }, [.pwriteNone p t])
+      | some c => ({ s with file := { s.file with data := putByte s.file.data s.off c },
+                            procs := setProc s.procs p { P with busy := some t, progs := contProg P t r } },
+                   [.pwrite p t c])
+    | .unlock :: r =>
+      ({ s with file := { s.file with owner := if s.file.owner == some p then none else s.file.owner },
+                procs := setProc s.procs p { P with ctr := none, busy := none, progs := contProg P t r } },
+       [.unlock p t])
+
+def runX (s : XSt) : List (Nat × Nat) → List XEv
+  | [] => []
+  | pt :: rest => (stepX s pt).2 ++ runX (stepX s pt).1 rest
+
+def afterX (s : XSt) : List (Nat × Nat) → XSt
+  | [] => s
+  | pt :: rest => afterX (stepX s pt).1 rest
+
+structure XChk where
+  holder : Option (Nat × Nat)
+  last : Option Nat
+  pend : Bool
+deriving Repr, DecidableEq
+
+/-- "serialised and counted" for users identified by (process, task); a user that fails is a violation -/
+def xchk1 (k : XChk) : XEv → Option XChk
+  | .creat _ _ => some k
+  | .opened _ => some k
+  | .winit _ => some k
+  | .lockBusy _ _ => some k
+  | .lockOk p t => if k.holder.isNone then some { k with holder := some (p, t) } else none
+  | .pread p t v => if k.holder == some (p, t) && decide (v ≤ mbxMod) then some k else none
+  | .preadEmpty _ _ => none
+  | .send p t c =>
+    if k.holder == some (p, t) && !k.pend && follows k.last c then some { k with last := some c, pend := true } else none
+  | .sendNone _ _ => none
+  | .recv p t => if k.holder == some (p, t) && k.pend then some { k with pend := false } else none
+  | .pwrite p t _ => if k.holder == some (p, t) && !k.pend then some k else none
+  | .pwriteNone _ _ => none
+  | .unlock p t => if k.holder == some (p, t) then some { k with holder := none } else none
+
+def checkX (k : XChk) : List XEv → Bool
+  | [] => true
+  | e :: es => match xchk1 k e with
+    | some k' => checkX k' es
+    | none => false
+
+def xchk0 : XChk := { holder := none, last := none, pend := false }
+
+/-- the byte of the terminal holds a counter -/
+def fileOk (off : Nat) (data : List Nat) : Bool :=
+  match data[off]? with
+  | some v => decide (v ≤ mbxMod)
+  | none => false
+
+/-- every process has at most one task using the mailbox -/
+def oneTask (tasks : List (List (List Nat))) : Bool := tasks.all fun ts => decide (ts.length ≤ 1)
+
+/-- `assert minimum <= no < maximum` in `ParallelMailboxLock.__init__` -/
+def lockCtorOk (lo hi no : Nat) : Bool := decide (lo ≤ no) && decide (no < hi)
+
 end Ebv.Mbx
